@@ -159,6 +159,9 @@ def check(prog: Program, tier: str) -> Result:
     res.ok("R18.3", tr.loc(), tr.fq, "bounded tracing", "decided under C04 R4.c (depth bound)", trivial=True)
     _r18_5(prog, res)
     _r18_6(prog, res)
+    _r18_8(prog, res)
+    _r18_7(prog, res)
+    _r18_9(prog, res)
     res.floors.update({"R18.1": 6, "R18.2": 2, "R18.4": 1, "R18.5": 1})
     res.analysed["importfrom_constructions"] = n
     return res
@@ -233,6 +236,98 @@ def _r18_5(prog: Program, res: Result) -> None:
     res.analysed["alias_name_comparisons"] = n
 
 
+# ------------------------------------------------------------------------------------------------ R18.7
+def _r18_7(prog: Program, res: Result) -> None:
+    """`X.module` of a from-import is an ABSOLUTE module name only if `X.level == 0`: `from .utils import f` has module
+    'utils' and level 1 and names a sibling of the importing file, not the top-level module utils.  Every place where the
+    tracing code treats X.module as an absolute name - handing it to the module locator, to importlib / __import__ /
+    find_spec, or testing it against the table of standard library modules - must be reached only when X.level is
+    zero (path condition)."""
+    ABSOLUTE_USERS = ("_trace_module_source_file", "import_module", "__import__", "find_spec")
+    n = 0
+    for fn in prog.funcs.values():
+        if fn.mod.name != "tracing":
+            continue
+        uses = []
+        for c in prog.calls_in(fn):
+            if norm(c.func).split(".")[-1] in ABSOLUTE_USERS and c.args and isinstance(c.args[0], ast.Attribute) and c.args[0].attr == "module" \
+                    and isinstance(c.args[0].value, ast.Name):
+                uses.append((c, c.args[0].value.id, short(c, 60)))
+        for cmp_ in walk_own(fn.node):
+            if isinstance(cmp_, ast.Compare) and len(cmp_.ops) == 1 and isinstance(cmp_.ops[0], (ast.In, ast.NotIn)) and isinstance(cmp_.left, ast.Attribute) \
+                    and cmp_.left.attr == "module" and isinstance(cmp_.left.value, ast.Name) and "STDLIB" in norm(cmp_.comparators[0]):
+                uses.append((cmp_, cmp_.left.value.id, short(cmp_, 60)))
+        if not uses:
+            continue
+        pa = PathAnalysis(prog, fn)
+        for node, subj, text in uses:
+            n += 1
+            lvl = f"{subj}.level"
+            # any spelling of "the level is zero": the path condition must entail one of them
+            spellings = [(f"{lvl}", False), (f"{lvl} == 0", True), (f"{lvl} != 0", False), (f"{lvl} > 0", False), (f"{lvl} >= 1", False), (f"{lvl} < 1", True)]
+            ok = pa.reached(node) and any(
+                pa.holds_at(node, lambda w, t=t, pol=pol: pa.formula(ast.parse(t, mode="eval").body, w, pol))[0] for t, pol in spellings)
+            res.decide(ok, "R18.7", fn.loc(node), fn.fq, text,
+                       f"reached only when {lvl} is 0" if ok else
+                       f"`{subj}.module` is used as an absolute module name although `{subj}.level` may be non-zero: a relative import (`from .utils import f`) is "
+                       "resolved as the top-level module of that name, and an unrelated module decides what the import is rewritten to")
+    res.analysed["absolute_uses_of_importfrom_module"] = n
+
+
+# ------------------------------------------------------------------------------------------------ R18.9
+def _r18_9(prog: Program, res: Result) -> None:
+    """`import a.b` binds the name `a`.  It is in use whenever `a` is - also when the text `a.b` never occurs (`a.x`).
+    The unused-import computation compares imported names with the dotted names that occur; for a dotted import it must
+    fall back on the first component (some `.split('.')[0]` / `.partition('.')` of the imported names on the way to the
+    result)."""
+    fn = prog.funcs.get(("fixes", "_get_unused_imports"))
+    if fn is None:
+        raise AnalysisError("anchor fixes._get_unused_imports not found")
+    rets = [r for r in walk_own(fn.node) if isinstance(r, ast.Return) and r.value is not None]
+    blob = " ".join(norm(r.value) for r in rets)
+    for r in rets:
+        for x in ast.walk(r.value):
+            if isinstance(x, ast.Name):
+                blob += " " + " ".join(norm(d) for _, d in assignments(fn, x.id) if d is not None)
+    first_component = any(k in blob for k in (".split('.')[0]", '.split(".")[0]', ".partition('.')[0]", '.partition(".")[0]'))
+    res.decide(first_component, "R18.9", fn.loc(rets[-1]) if rets else fn.loc(), fn.fq, "dotted imports",
+               "a dotted import counts as used when its first component is used" if first_component else
+               "an import `a.b` is unused as soon as the text `a.b` does not occur, although `a.x` uses the name it binds: `import a.b` is removed and `a` becomes a NameError")
+
+
+# ------------------------------------------------------------------------------------------------ R18.8
+def _r18_8(prog: Program, res: Result) -> None:
+    """`__import__("a.b")` returns the package `a`, not the module `a.b` (it is the primitive behind `import a.b`, which
+    binds `a`).  Where the exports of the module named by an import statement are examined, the module object must be
+    obtained with importlib.import_module (or a non-empty fromlist) - otherwise `from os.path import *` is judged by
+    the names of `os`.  Instance: every `__import__(X)` with one argument in the tracing code whose result is inspected;
+    discharged if X is shown to contain no dot."""
+    n = 0
+    for fn in prog.funcs.values():
+        if fn.mod.name != "tracing":
+            continue
+        pa = None
+        for c in prog.calls_in(fn):
+            if not (isinstance(c.func, ast.Name) and c.func.id == "__import__"):
+                continue
+            n += 1
+            has_fromlist = len(c.args) >= 4 or any(k.arg == "fromlist" for k in c.keywords)
+            ok = has_fromlist
+            why = "fromlist given: the submodule itself is returned" if ok else ""
+            if not ok and c.args:
+                pa = pa or PathAnalysis(prog, fn)
+                subj = norm(c.args[0])
+                worlds = pa.worlds_at(c)
+                ok = bool(worlds) and all(world_has(w, False, lambda t, s_=subj: t.replace(" ", "") in (f"in('.',{s_})", f"'.'in{s_}")) for w in worlds)
+                why = "reached only for names without a dot" if ok else ""
+            res.decide(ok, "R18.8", fn.loc(c), fn.fq, short(c, 60),
+                       why if ok else
+                       "__import__ of a dotted module name returns the TOP-LEVEL package: the exports examined for `from os.path import *` are those of `os`; "
+                       "names of os.path are 'not exported' (the star import is deleted), names of os are attributed to os.path")
+    if n == 0:
+        res.ok("R18.8", "pyrefact/tracing.py:0", "tracing", "__import__ of module names", "not used", trivial=True)
+
+
 # ------------------------------------------------------------------------------------------------ R18.6
 def _r18_6(prog: Program, res: Result) -> None:
     """A star import binds names the tool cannot see.  It may be deleted only if it is PROVABLY unused: (a) in
@@ -281,11 +376,25 @@ def _r18_6(prog: Program, res: Result) -> None:
 from ..selftest import Variant  # noqa: E402
 
 VARIANTS = [
+    Variant("dotted-import-unused-when-not-spelled-out", "FIRE", "fixes",
+            "    return {name for name in imports - names if name.split(\".\")[0] not in names}\n", "    return imports - names\n", "R18.9"),
+    Variant("reimported-names-ignore-level", "FIRE", "tracing",
+            "    for node in core.walk(root, ast.ImportFrom):\n        if node.level:\n            continue  # A relative import, node.module is not the name of a top level module\n\n",
+            "    for node in core.walk(root, ast.ImportFrom):\n", "R18.7"),
+    Variant("level-tested-explicitly-against-zero", "SILENT", "tracing",
+            "    for node in core.walk(root, ast.ImportFrom):\n        if node.level:\n            continue  # A relative import, node.module is not the name of a top level module\n\n",
+            "    for node in core.walk(root, ast.ImportFrom):\n        if node.level != 0:\n            continue\n\n"),
+    Variant("dunder-import-of-dotted-module-names", "FIRE", "tracing",
+            "                if origin in {\"frozen\", \"built-in\"}:\n                    try:\n                        module = importlib.import_module(node.module)  # __import__('a.b') would return a",
+            "                if origin in {\"frozen\", \"built-in\"}:\n                    try:\n                        module = __import__(node.module)", "R18.8"),
+    Variant("dunder-import-with-fromlist", "SILENT", "tracing",
+            "                if origin in {\"frozen\", \"built-in\"}:\n                    try:\n                        module = importlib.import_module(node.module)  # __import__('a.b') would return a",
+            "                if origin in {\"frozen\", \"built-in\"}:\n                    try:\n                        module = __import__(node.module, fromlist=[\"*\"])"),
     Variant("star-imports-kept-while-names-are-untraced", "SILENT", "tracing",
             "    for name in undefined_names:\n        if trace_result := trace_origin(name, source):\n            if core.match_template(trace_result.ast, template):\n                starred_import_name_mapping[trace_result.ast].add(name)\n",
             "    untraced_names = set()\n    for name in undefined_names:\n        if trace_result := trace_origin(name, source):\n            if core.match_template(trace_result.ast, template):\n                starred_import_name_mapping[trace_result.ast].add(name)\n        else:\n            untraced_names.add(name)\n",
             extra=[("tracing", "    # Remove remaining starred imports\n    for node in core.filter_nodes(root.body, template):", "    if untraced_names:\n        return\n\n    for node in core.filter_nodes(root.body, template):"),
-                   ("fixes", "    return imports - names\n", "    return imports - names - {'*'}\n")]),
+                   ("fixes", "    return {name for name in imports - names if name.split(\".\")[0] not in names}\n", "    return {name for name in imports - names - {'*'} if name.split(\".\")[0] not in names}\n")]),
     Variant("alias-found-under-its-original-name", "FIRE", "tracing",
             "                    original_name = next(\n                        alias.name\n                        for alias in module_import_node.names\n                        if alias.asname == name or (alias.asname is None and alias.name == name)\n                    )",
             "                    original_name = next(\n                        alias.name\n                        for alias in module_import_node.names\n                        if name in (alias.asname, alias.name)\n                    )", "R18.5"),
